@@ -1662,3 +1662,394 @@ Proof.
   - intros e1 e2. unfold es_header, es_append_index_name. cbn [es_fmt es_vals es_time es_op es_default_vals is_nil].
     rewrite (es_name_time_only fmt [ITime] 0 time e1 e2); [reflexivity|]. constructor; [reflexivity|constructor].
 Qed.
+
+(* ==========================================================================================
+   13. routing: the value a sink derives from an event to direct its document
+   ========================================================================================== *)
+Lemma bytes_eqb_iff a : forall b, bytes_eqb a b = true <-> a = b.
+Proof.
+  unfold bytes_eqb.
+  induction a as [|x a IH]; intros [|y b]; cbn [N_eqb_list]; split; intros H; try reflexivity; try discriminate.
+  - apply andb_true_iff in H. destruct H as [H1 H2]. apply N.eqb_eq in H1. apply IH in H2. subst. reflexivity.
+  - injection H as -> ->. rewrite N.eqb_refl. cbn [andb]. apply IH. reflexivity.
+Qed.
+
+Lemma routed_eqb_iff x y : routed_eqb x y = true <-> x = y.
+Proof.
+  destruct x as [a b], y as [c d]. unfold routed_eqb. cbn [fst snd]. rewrite andb_true_iff, !bytes_eqb_iff.
+  split; [intros [-> ->]; reflexivity|intro H; injection H as -> ->; auto].
+Qed.
+
+Lemma routed_list_eqb_iff xs : forall ys, routed_list_eqb xs ys = true <-> xs = ys.
+Proof.
+  induction xs as [|x xs IH]; intros [|y ys]; cbn [routed_list_eqb]; split; intro H; try reflexivity; try discriminate.
+  - apply andb_true_iff in H. destruct H as [H1 H2]. apply routed_eqb_iff in H1. apply IH in H2. subst. reflexivity.
+  - injection H as -> ->. apply andb_true_iff. split; [apply routed_eqb_iff|apply IH]; reflexivity.
+Qed.
+
+Lemma routed_subseq_refl xs : routed_subseq xs xs = true.
+Proof.
+  induction xs as [|x xs IH]; [reflexivity|]. cbn [routed_subseq].
+  replace (routed_eqb x x) with true by (symmetry; apply routed_eqb_iff; reflexivity). exact IH.
+Qed.
+
+Lemma routed_subseq_nil ys : routed_subseq [] ys = true.
+Proof. destruct ys; reflexivity. Qed.
+
+(* ---- kafka ------------------------------------------------------------------------------------- *)
+(* the topic is a function of the event's own topic value and the configuration *)
+Theorem k_topic_spec c e :
+  (k_use_field c = true -> ev_topic e <> [] -> k_topic c e = ev_topic e)
+  /\ (k_use_field c = false \/ ev_topic e = [] -> k_topic c e = k_default c)
+  /\ (forall e2, ev_topic e2 = ev_topic e -> k_topic c e2 = k_topic c e).
+Proof.
+  unfold k_topic. split; [|split].
+  - intros -> Hne. destruct (ev_topic e); [congruence|reflexivity].
+  - intros [->| ->]; [reflexivity|]. destruct (k_use_field c); reflexivity.
+  - intros e2 ->. reflexivity.
+Qed.
+
+(* what the producer is handed for a list of events: per record its topic (reported with status -1) and
+   its value (reported with the answer) *)
+Definition k_obs (c : k_cfg) (st : Z) (evs : list ev) : list (bytes * Z) :=
+  flat_map (fun e => [(k_topic c e, -1); (enc e, st)]) evs.
+Definition req_obs (q : sreq) : bytes * Z := (rq_body q, rq_status q).
+
+Lemma k_reqs_spec c st : forall evs pre,
+  exists reqs, k_reqs (pre ++ concat (map enc evs)) (k_recs c (len pre) evs) st = Ok reqs
+    /\ map req_obs reqs = k_obs c st evs.
+Proof.
+  induction evs as [|e r IH]; intro pre; cbn [k_recs map concat k_reqs].
+  - eexists. split; reflexivity.
+  - unfold k_value at 1. cbn [kr_start kr_end kr_topic]. rewrite slice_app_mid. cbn [bind].
+    destruct (IH (pre ++ enc e)) as (reqs & E & M). rewrite len_app, <- app_assoc in E. rewrite E. cbn [bind].
+    eexists. split; [reflexivity|]. cbn [map req_obs rq_body rq_status]. unfold k_obs in *. cbn [flat_map app].
+    rewrite M. reflexivity.
+Qed.
+
+(* one call of out(): whatever the worker's buffer and records held before and whatever the answer is,
+   record i carries the topic and the encoding of the i-th deliverable event of THIS batch *)
+Theorem kafka_out_routing c batch prev script :
+  len (deliverable batch) <= k_batch_size c ->
+  exists a, kafka_out c batch prev script = Ok a
+    /\ map req_obs (at_reqs a) = k_obs c (fst (next_status script)) (deliverable batch)
+    /\ at_buf a = concat (map enc (deliverable batch)).
+Proof.
+  intro Hbs. unfold kafka_out. rewrite (kafka_build_spec c batch prev Hbs). cbn [bind].
+  destruct (next_status script) as [st sc]. cbn [fst].
+  destruct (k_reqs_spec c st (deliverable batch) []) as (reqs & E & M). cbn [app len] in E.
+  change (len (@nil byte)) with 0 in E. rewrite E. cbn [bind].
+  eexists. split; [reflexivity|]. cbn [at_reqs at_buf]. auto.
+Qed.
+
+Lemma k_obs_app c st a b : k_obs c st (a ++ b) = k_obs c st a ++ k_obs c st b.
+Proof. unfold k_obs. apply flat_map_app. Qed.
+
+(* topic independence / no cross-event leakage: inside ANY batch that contains the deliverable event e —
+   any events before it, any after it, any history of the worker's buffer and records, any answer — the
+   record at e's place carries [k_topic c e], a function of e and the configuration alone *)
+Theorem kafka_topic_independent c e pre post prev script :
+  is_parent e = false -> len (deliverable (pre ++ e :: post)) <= k_batch_size c ->
+  exists a, kafka_out c (pre ++ e :: post) prev script = Ok a
+    /\ map req_obs (at_reqs a)
+       = k_obs c (fst (next_status script)) (deliverable pre)
+         ++ [(k_topic c e, -1); (enc e, fst (next_status script))]
+         ++ k_obs c (fst (next_status script)) (deliverable post).
+Proof.
+  intros Hp Hbs. destruct (kafka_out_routing c (pre ++ e :: post) prev script Hbs) as (a & E & M & _).
+  exists a. split; [exact E|]. rewrite M, deliverable_app. cbn [deliverable filter]. rewrite Hp. cbn [negb].
+  rewrite k_obs_app. reflexivity.
+Qed.
+
+Theorem kafka_no_cross_event_leak c e pre1 post1 pre2 post2 p1 s1 p2 s2 :
+  is_parent e = false ->
+  len (deliverable (pre1 ++ e :: post1)) <= k_batch_size c ->
+  len (deliverable (pre2 ++ e :: post2)) <= k_batch_size c ->
+  exists a1 a2,
+    kafka_out c (pre1 ++ e :: post1) p1 s1 = Ok a1 /\ kafka_out c (pre2 ++ e :: post2) p2 s2 = Ok a2
+    /\ nth_error (map rq_body (at_reqs a1)) (2 * length (deliverable pre1)) = Some (k_topic c e)
+    /\ nth_error (map rq_body (at_reqs a2)) (2 * length (deliverable pre2)) = Some (k_topic c e)
+    /\ nth_error (map rq_body (at_reqs a1)) (S (2 * length (deliverable pre1))) = Some (enc e)
+    /\ nth_error (map rq_body (at_reqs a2)) (S (2 * length (deliverable pre2))) = Some (enc e).
+Proof.
+  intros Hp H1 H2.
+  assert (Hlen : forall st l, length (k_obs c st l) = (2 * length l)%nat).
+  { intros st l. unfold k_obs. induction l as [|x l IH]; [reflexivity|]. cbn [flat_map app length]. rewrite IH. lia. }
+  assert (Hnth : forall pre post p s a, kafka_out c (pre ++ e :: post) p s = Ok a ->
+            len (deliverable (pre ++ e :: post)) <= k_batch_size c ->
+            nth_error (map rq_body (at_reqs a)) (2 * length (deliverable pre)) = Some (k_topic c e)
+            /\ nth_error (map rq_body (at_reqs a)) (S (2 * length (deliverable pre))) = Some (enc e)).
+  { intros pre post p s a Ea Hb.
+    destruct (kafka_topic_independent c e pre post p s Hp Hb) as (a' & E' & M). rewrite Ea in E'. injection E' as <-.
+    replace (map rq_body (at_reqs a)) with (map fst (map req_obs (at_reqs a)))
+      by (rewrite map_map; apply map_ext; reflexivity).
+    rewrite M, map_app. split.
+    - rewrite nth_error_app2; rewrite map_length, Hlen; [|lia]. rewrite Nat.sub_diag. reflexivity.
+    - rewrite nth_error_app2; rewrite map_length, Hlen; [|lia].
+      replace (S (2 * length (deliverable pre)) - 2 * length (deliverable pre))%nat with 1%nat by lia. reflexivity. }
+  destruct (kafka_out_routing c _ p1 s1 H1) as (a1 & E1 & _).
+  destruct (kafka_out_routing c _ p2 s2 H2) as (a2 & E2 & _).
+  exists a1, a2. split; [exact E1|]. split; [exact E2|].
+  destruct (Hnth pre1 post1 p1 s1 a1 E1 H1) as [T1 V1]. destruct (Hnth pre2 post2 p2 s2 a2 E2 H2) as [T2 V2]. auto.
+Qed.
+
+(* no cross-batch / cross-attempt leakage: through ANY history of batches on one worker (buffer and
+   records reused, failed attempts offered again, any answers) every call of out() hands the producer,
+   per record, the topic and the value of the events of the batch it was called with *)
+Definition k_att_ok (c : k_cfg) (b : list ev) (r : res attempt) : Prop :=
+  exists a st, r = Ok a /\ map req_obs (at_reqs a) = k_obs c st (deliverable b).
+
+Lemma kafka_attempts_routing c b : len (deliverable b) <= k_batch_size c ->
+  forall tries prev script,
+  let '(atts, p, s, ok) := attempts (kafka_out c) tries b prev script in
+  ok = true /\ Forall (k_att_ok c b) atts.
+Proof.
+  intro Hb. induction tries as [|t IH]; intros prev script; cbn [attempts].
+  - split; [reflexivity|constructor].
+  - destruct (kafka_out_routing c b prev script Hb) as (a & E & M & _). rewrite E.
+    assert (Ha : k_att_ok c b (Ok a)) by (exists a, (fst (next_status script)); auto).
+    destruct (Z.eqb (at_ret a) 1).
+    + specialize (IH (at_buf a) (at_script a)).
+      destruct (attempts (kafka_out c) t b (at_buf a) (at_script a)) as [[[rest p] s] ok].
+      destruct IH as [Hok Hall]. split; [exact Hok|constructor; assumption].
+    + split; [reflexivity|constructor; [exact Ha|constructor]].
+Qed.
+
+Lemma kafka_attempts_nonempty c b : len (deliverable b) <= k_batch_size c ->
+  forall tries prev script, tries <> O ->
+  fst (fst (fst (attempts (kafka_out c) tries b prev script))) <> [].
+Proof.
+  intros Hb [|t] prev script Ht; [congruence|]. cbn [attempts].
+  destruct (kafka_out_routing c b prev script Hb) as (a & E & _). rewrite E.
+  destruct (Z.eqb (at_ret a) 1).
+  - destruct (attempts (kafka_out c) t b (at_buf a) (at_script a)) as [[[rest p] s] ok]. cbn [fst]. discriminate.
+  - cbn [fst]. discriminate.
+Qed.
+
+Theorem kafka_history_routing c : forall batches prev script,
+  Forall (fun b => len (deliverable b) <= k_batch_size c) batches ->
+  Forall (fun ba => k_att_ok c (fst ba) (snd ba)) (run_batches (kafka_out c) batches prev script)
+  /\ (forall b, In b batches -> In b (map fst (run_batches (kafka_out c) batches prev script))).
+Proof.
+  induction batches as [|b bs IH]; intros prev script HF; cbn [run_batches].
+  - split; [constructor|intros b []].
+  - inversion HF as [|? ? Hb Hbs]; subst.
+    pose proof (kafka_attempts_routing c b Hb 3 prev script) as Hatt.
+    pose proof (kafka_attempts_nonempty c b Hb 3 prev script ltac:(discriminate)) as Hne.
+    destruct (attempts (kafka_out c) 3 b prev script) as [[[atts p] s] ok]. cbn [fst] in Hne.
+    destruct Hatt as [-> Hall]. destruct (IH p s Hbs) as [IH1 IH2]. split.
+    + apply Forall_app. split; [|exact IH1].
+      apply Forall_forall. intros ba Hin. apply in_map_iff in Hin. destruct Hin as (r & <- & Hr). cbn [fst snd].
+      rewrite Forall_forall in Hall. apply Hall, Hr.
+    + intros b' [<-|Hin]; rewrite map_app; apply in_or_app.
+      * left. rewrite map_map. cbn [fst]. destruct atts as [|r rest]; [congruence|]. left. reflexivity.
+      * right. apply IH2, Hin.
+Qed.
+
+(* ---- the predicate's routing clause for kafka: it holds of an observation exactly when the observed
+   records are, in order, (k_topic c e, enc e) for the deliverable events of the batch *)
+Lemma kafka_pairs_obs c st : st <> -1 -> forall evs reqs,
+  map req_obs reqs = k_obs c st evs ->
+  kafka_pairs (map sx_of_req reqs) = Some (map (k_routed c) evs).
+Proof.
+  intros Hst. induction evs as [|e r IH]; intros reqs M.
+  - destruct reqs; [reflexivity|discriminate].
+  - unfold k_obs in M. cbn [flat_map app] in M.
+    destruct reqs as [|q1 [|q2 reqs]]; try discriminate.
+    cbn [map] in M. unfold req_obs at 1 2 in M. injection M as B1 S1 B2 S2 M3.
+    cbn [map sx_of_req kafka_pairs]. rewrite S1, S2, B1, B2.
+    replace (st =? -1) with false by lia. cbn [Z.eqb andb negb].
+    rewrite (IH reqs M3). reflexivity.
+Qed.
+
+Theorem kafka_route_pred_iff cfgsx c batch m reqs ret :
+  kafka_of_sx cfgsx = Some c ->
+  route_pred 3 cfgsx batch m (SL [SZ 0; SL reqs; SZ ret]) = true
+  <-> kafka_pairs reqs = Some (map (k_routed c) (deliverable batch)).
+Proof.
+  intro Hc. unfold route_pred, expected_routed, carried_pairs, complete. rewrite Hc. cbn [Z.eqb Pos.eqb orb].
+  destruct (kafka_pairs reqs) as [ps|]; [|split; discriminate]. rewrite andb_true_r.
+  split.
+  - intro H. apply andb_true_iff in H. destruct H as [_ H]. apply routed_list_eqb_iff in H. rewrite H. reflexivity.
+  - intro H. injection H as ->. rewrite routed_subseq_refl. apply routed_list_eqb_iff. reflexivity.
+Qed.
+
+(* ... and the model's own observation satisfies it, for every buffer history and every answer *)
+Theorem kafka_model_routes cfgsx c batch prev script :
+  kafka_of_sx cfgsx = Some c -> len (deliverable batch) <= k_batch_size c -> fst (next_status script) <> -1 ->
+  route_pred 3 cfgsx batch (kafka_out c batch prev script) (sx_flat (kafka_out c batch prev script)) = true.
+Proof.
+  intros Hc Hbs Hst. destruct (kafka_out_routing c batch prev script Hbs) as (a & E & M & _). rewrite E.
+  cbn [sx_flat]. apply (kafka_route_pred_iff cfgsx c batch (Ok a) _ _ Hc).
+  apply (kafka_pairs_obs c _ Hst), M.
+Qed.
+
+(* ---- elasticsearch: the action line ------------------------------------------------------------ *)
+(* the action line reads nothing of the event but its index values *)
+Lemma es_name_spec_local fmt : forall vals k time e1 e2,
+  ev_raw e1 = ev_raw e2 -> ev_esc e1 = ev_esc e2 ->
+  es_name_spec fmt vals k time e1 = es_name_spec fmt vals k time e2.
+Proof.
+  induction fmt as [|ch r IH]; intros vals k time e1 e2 Hr He; cbn [es_name_spec]; [reflexivity|].
+  destruct (N.eqb ch PERCENT).
+  - destruct vals as [|v vals']; [reflexivity|]. rewrite (IH vals' (S k) time e1 e2 Hr He).
+    unfold es_piece. rewrite Hr, He. reflexivity.
+  - rewrite (IH vals k time e1 e2 Hr He). reflexivity.
+Qed.
+
+Theorem es_header_local c e1 e2 :
+  ev_raw e1 = ev_raw e2 -> ev_esc e1 = ev_esc e2 -> es_header_of c e1 = es_header_of c e2.
+Proof.
+  intros Hr He. unfold es_header_of, es_name_of. rewrite (es_name_spec_local _ _ _ _ e1 e2 Hr He). reflexivity.
+Qed.
+
+Lemma es_route_ok c e : es_cfg_ok c -> es_route c e = es_header_of c e.
+Proof. intro Hc. unfold es_route. rewrite (es_header_ok c e Hc). reflexivity. Qed.
+
+Definition es_payload (c : es_cfg) (batch : list ev) : bytes := concat (map (es_frame_of c) (deliverable batch)).
+
+(* action-line independence: inside the payload of ANY batch that contains the deliverable event e the
+   bytes at e's place are its own action line and its own document *)
+Theorem es_action_line_independent c e pre post prev script :
+  es_cfg_ok c -> is_parent e = false ->
+  exists a, es_out c (pre ++ e :: post) prev script = Ok a
+    /\ at_buf a = es_payload c pre ++ (es_header_of c e ++ [NL] ++ enc e ++ [NL]) ++ es_payload c post
+    /\ slice (at_buf a) (len (es_payload c pre)) (len (es_payload c pre) + len (es_header_of c e))
+       = Ok (es_header_of c e).
+Proof.
+  intros Hc Hp. destruct (es_out_spec c (pre ++ e :: post) prev script Hc) as (a & E & B & _).
+  exists a. split; [exact E|].
+  assert (B' : at_buf a = es_payload c pre ++ (es_header_of c e ++ [NL] ++ enc e ++ [NL]) ++ es_payload c post).
+  { rewrite B. unfold es_payload. rewrite deliverable_app. cbn [deliverable filter]. rewrite Hp. cbn [negb].
+    rewrite map_app, concat_app. reflexivity. }
+  split; [exact B'|]. rewrite B', <- !app_assoc. apply slice_app_mid.
+Qed.
+
+(* the predicate's cutter (es_pairs) reads from the frames of any events exactly their (action line,
+   document) pairs — under the oracle hypotheses that make the lines lines *)
+Lemma unpair_flat {A} (f g : A -> bytes) : forall l,
+  unpair (flat_map (fun e => [f e; g e]) l) = Some (map f l, map g l).
+Proof.
+  induction l as [|x l IH]; [reflexivity|]. cbn [flat_map app unpair map]. rewrite IH. reflexivity.
+Qed.
+
+Lemma combine_map {A B C} (f : A -> B) (g : A -> C) : forall l, combine (map f l) (map g l) = map (fun x => (f x, g x)) l.
+Proof. induction l as [|x l IH]; [reflexivity|]. cbn [map combine]. rewrite IH. reflexivity. Qed.
+
+Theorem es_pairs_frames c evs :
+  es_cfg_ok c -> es_cfg_plain c -> Forall esc_safe evs -> Forall enc_line_safe evs ->
+  es_pairs (concat (map (es_frame_of c) evs)) = Some (map (es_routed c) evs).
+Proof.
+  intros Hc Hp He Hl. unfold es_pairs. rewrite es_frames_as_lines. unfold lines_tail.
+  rewrite split_tail_frames.
+  - cbn [is_nil negb]. rewrite unpair_flat, combine_map. f_equal. apply map_ext. intro e.
+    unfold es_routed. rewrite (es_route_ok c e Hc). reflexivity.
+  - apply Forall_forall. intros l Hin. apply in_flat_map in Hin. destruct Hin as (e & He' & Hin).
+    rewrite Forall_forall in He, Hl.
+    destruct Hin as [<-|[<-|[]]].
+    + destruct (es_header_valid c e (es_header_of c e) Hc Hp (He e He') (es_header_ok c e Hc)) as (_ & H2 & _). exact H2.
+    + apply Hl, He'.
+Qed.
+
+(* the model's own observation satisfies the routing clause (one request per call: without split_batch),
+   for every buffer history and every answer *)
+Theorem es_model_routes cfgsx c pr batch prev script :
+  es_of_sx cfgsx = Some (c, pr) -> es_cfg_ok c -> es_cfg_plain c -> es_split c = false ->
+  Forall esc_safe (deliverable batch) -> Forall enc_line_safe (deliverable batch) ->
+  route_pred 0 cfgsx batch (es_out c batch prev script) (sx_flat (es_out c batch prev script)) = true.
+Proof.
+  intros Hcfg Hc Hp Hs He Hl. unfold es_out. rewrite (es_build_spec c batch prev Hc). cbn [bind]. rewrite Hs.
+  unfold send_whole. destruct (next_status script) as [st sc]. cbn [bind sx_flat at_reqs map sx_of_req rq_body rq_status].
+  unfold route_pred, expected_routed. rewrite Hcfg. unfold carried_pairs. cbn [Z.eqb es_carried_pairs].
+  unfold sx_of_req. cbn [rq_body rq_status]. rewrite (es_pairs_frames c (deliverable batch) Hc Hp He Hl).
+  cbn [es_all_routed]. rewrite (es_pairs_frames c (deliverable batch) Hc Hp He Hl), routed_subseq_refl.
+  unfold complete. cbn [Z.eqb orb at_err andb]. destruct (is_ok_status st); cbn [negb].
+  - rewrite app_nil_r, routed_subseq_refl, andb_true_r. cbn [andb]. apply routed_list_eqb_iff. reflexivity.
+  - rewrite routed_subseq_nil. reflexivity.
+Qed.
+
+(* ---- a concrete instance ------------------------------------------------------------------------ *)
+(* kafka with use_topic_field: [topic "a"; parent; no topic] then, on the same worker, [no topic; topic "b"]:
+   the records of the second batch carry default / "b", nothing of the first batch *)
+Definition ex_kcfg : k_cfg := mkK [100]%N true 4.
+Definition ex_k1 : ev := mkEv 0 [123; 49; 125]%N [] [] [97]%N None [].
+Definition ex_k2 : ev := mkEv 2 [123; 50; 125]%N [] [] [120]%N None [].
+Definition ex_k3 : ev := mkEv 0 [123; 51; 125]%N [] [] [] None [].
+Definition ex_k4 : ev := mkEv 0 [123; 52; 125]%N [] [] [98]%N None [].
+
+(* ---- every request, whatever its answer, consists of pairs of the batch --------------------------- *)
+Inductive sub {A} : list A -> list A -> Prop :=
+| sub_nil ys : sub [] ys
+| sub_take x xs ys : sub xs ys -> sub (x :: xs) (x :: ys)
+| sub_skip y xs ys : sub xs ys -> sub xs (y :: ys).
+
+Lemma sub_firstn {A} : forall n (l : list A), sub (firstn n l) l.
+Proof.
+  induction n as [|n IH]; intro l; [apply sub_nil|]. destruct l as [|x l]; [apply sub_nil|].
+  cbn [firstn]. apply sub_take, IH.
+Qed.
+
+Lemma sub_range {A} : forall (l : list A) k n, sub (firstn n (skipn k l)) l.
+Proof.
+  induction l as [|x l IH]; intros k n.
+  - destruct k; destruct n; apply sub_nil.
+  - destruct k as [|k]; [apply sub_firstn|]. cbn [skipn]. apply sub_skip, IH.
+Qed.
+
+Lemma sub_tail {A} (x : A) xs : forall ys, sub (x :: xs) ys -> sub xs ys.
+Proof.
+  induction ys as [|y ys IH]; intro H; inversion H; subst.
+  - apply sub_skip. assumption.
+  - apply sub_skip, IH. assumption.
+Qed.
+
+Lemma sub_Forall {A} (P : A -> Prop) xs ys : sub xs ys -> Forall P ys -> Forall P xs.
+Proof.
+  induction 1 as [ys|x xs ys H IH|y xs ys H IH]; intro F.
+  - constructor.
+  - inversion F; subst. constructor; auto.
+  - inversion F; subst. auto.
+Qed.
+
+Lemma sub_map {A B} (f : A -> B) xs ys : sub xs ys -> sub (map f xs) (map f ys).
+Proof. induction 1; cbn [map]; constructor; assumption. Qed.
+
+(* the predicate's greedy matcher finds every embedding *)
+Lemma routed_subseq_complete : forall ys xs, sub xs ys -> routed_subseq xs ys = true.
+Proof.
+  induction ys as [|y ys IH]; intros xs H.
+  - inversion H; subst. reflexivity.
+  - destruct xs as [|x xs]; [reflexivity|]. cbn [routed_subseq].
+    destruct (routed_eqb x y) eqn:E.
+    + apply IH. inversion H; subst; [assumption|]. eapply sub_tail; eassumption.
+    + apply IH. inversion H; subst; [|assumption].
+      exfalso. assert (routed_eqb y y = true) by (apply routed_eqb_iff; reflexivity). congruence.
+Qed.
+
+Lemma es_all_routed_spec c ds : es_cfg_ok c -> es_cfg_plain c -> Forall esc_safe ds -> Forall enc_line_safe ds ->
+  forall reqs,
+  Forall (fun q => rq_body q = frames_range (map (es_frame_of c) ds) (rq_l q) (rq_r q)) reqs ->
+  es_all_routed (map (es_routed c) ds) (map sx_of_req reqs) = true.
+Proof.
+  intros Hc Hp He Hl. induction reqs as [|q reqs IH]; intro F; [reflexivity|].
+  inversion F as [|? ? Hq Fq]; subst. cbn [map sx_of_req es_all_routed]. rewrite (IH Fq), andb_true_r.
+  rewrite Hq. unfold frames_range. rewrite skipn_map, firstn_map.
+  set (part := firstn (Z.to_nat (rq_r q - rq_l q)) (skipn (Z.to_nat (rq_l q)) ds)).
+  assert (Hs : sub part ds) by apply sub_range.
+  rewrite (es_pairs_frames c part Hc Hp (sub_Forall _ _ _ Hs He) (sub_Forall _ _ _ Hs Hl)).
+  apply routed_subseq_complete, sub_map, Hs.
+Qed.
+
+(* with or without split_batch, for every buffer history and every script of answers: every request out()
+   makes — also one that is answered 413 / 5xx / with a rejected body — consists, in order, of (action
+   line, document) pairs of the batch's deliverable events, each action line the event's own *)
+Theorem es_requests_routed c batch prev script :
+  es_cfg_ok c -> es_cfg_plain c ->
+  Forall esc_safe (deliverable batch) -> Forall enc_line_safe (deliverable batch) ->
+  exists a, es_out c batch prev script = Ok a
+    /\ es_all_routed (map (es_routed c) (deliverable batch)) (map sx_of_req (at_reqs a)) = true.
+Proof.
+  intros Hc Hp He Hl. destruct (es_out_spec c batch prev script Hc) as (a & E & _ & _ & F & _).
+  exists a. split; [exact E|]. apply (es_all_routed_spec c (deliverable batch) Hc Hp He Hl).
+  eapply Forall_impl; [|exact F]. intros q (_ & _ & Hq). exact Hq.
+Qed.
